@@ -175,11 +175,32 @@ class Gen:
 def post(solver, gen, rng, depth):
     """Post one (possibly nested) ensure; records the shadow of every flattened item in solver._verif_sems."""
     c, sc = gen.bool_expr(rng.randint(0, depth))
-    if rng.random() < 0.2:
+    r = rng.random()
+    if r < 0.3:
         c2, sc2 = gen.bool_expr(1)
-        solver.ensure([c, [c2]])
+        # every argument form `ensure` documents: nested lists, tuples, several positional arguments, and ONE-SHOT iterables
+        # (generator expressions, iterators, map objects) at top level or nested
+        form = rng.randrange(7)
+        if hasattr(solver, "_verif_posts"):
+            solver._verif_posts.append([form, [exprio.pexpr(c), exprio.pexpr(c2)]])
+        if form == 0:
+            solver.ensure([c, [c2]])
+        elif form == 1:
+            solver.ensure((c, (c2,)))
+        elif form == 2:
+            solver.ensure(c, c2)
+        elif form == 3:
+            solver.ensure(x for x in [c, c2])
+        elif form == 4:
+            solver.ensure(iter([c, c2]))
+        elif form == 5:
+            solver.ensure(map(lambda x: x, [c, c2]))
+        else:
+            solver.ensure([c, (x for x in [c2])])
         solver._verif_sems += [sc, sc2]
     else:
+        if hasattr(solver, "_verif_posts"):
+            solver._verif_posts.append([-1, [exprio.pexpr(c)]])
         solver.ensure(c)
         solver._verif_sems.append(sc)
 
@@ -189,6 +210,7 @@ def random_session(rng, max_bools=3, max_ints=3, depth=3, nconstraints=(1, 4), d
     from cspuz import Solver
     s = Solver()
     s._verif_sems = []
+    s._verif_posts = []      # [ensure form, [printed items]] in posting order: the calls as made, for replays
     bools = [s.bool_var() for _ in range(rng.randint(0, max_bools))]
     ints = []
     for _ in range(rng.randint(0 if bools else 1, max_ints)):
@@ -226,7 +248,9 @@ def brute_models(solver, limit=200000, shadow=True):
     if total > limit:
         raise OverflowError
     sems = getattr(solver, "_verif_sems", None) if shadow else None
-    if sems is not None and len(sems) == len(solver.constraints):
+    if sems is not None:
+        # the shadows are what the session MEANT to post; they are used also when the Solver holds a different number of
+        # constraints (an `ensure` that lost or duplicated an item must not take the oracle with it)
         checks = sems
     else:
         from .core import parse_sx
